@@ -101,6 +101,12 @@ def mixture(
     if result is not NotImplemented:
         return ((1.0, result),)
 
+    # Stay consistent with `has_mixture`, which accepts anything `has_unitary` accepts
+    # (including values whose unitary is only available through decomposition).
+    decomposed_unitary = unitary(val, None)
+    if decomposed_unitary is not None:
+        return ((1.0, decomposed_unitary),)
+
     if default is not RaiseTypeErrorIfNotProvided:
         return default
 
